@@ -15,6 +15,12 @@ result is compared exactly with the meaning of the input:
                that bind none of the substituted indices
   C10-memo     a context-sensitive Transformer (handlers read traversal state) must not inherit a memo
                keyed without that state
+  C10-key      shared MEMO-KEY rule over the three modules (dict memos, membership-guarded memos whatever the
+               cache is called, persistent vcaches).
+The hand-written family is extended by the compositional generator of sa/corpus.py: every composition
+closer(wrapper^n(base)) of 9 tensor-valued bases, 6 wrappers (variable, conditional branches, list row, sum,
+as_tensor re-wrap) and 4 closers (fixed components of one shared node, free contraction, self contraction,
+mixed fixed/free), n <= 1 in the quick tier and n <= 2 in the thorough tier.
 """
 
 from __future__ import annotations
